@@ -4,6 +4,7 @@ package main
 // SMT script (one per function under verification).
 
 import (
+	"regexp"
 	"fmt"
 	"go/ast"
 	"go/token"
@@ -1013,7 +1014,34 @@ func (fc *FnCtx) panicText(fr *Frame, p *ssa.Panic) string {
 }
 
 // havocLoop forgets everything the loop body may write.
+var callsRe = regexp.MustCompile(`calls\((\w+)\)`)
+
 func (fc *FnCtx) havocLoop(fr *Frame, h *ssa.BasicBlock, st *State) {
+	// call counters (calls(F)) are unknown after an unknown number of iterations
+	if fc.con != nil && strings.Contains(fc.con.AllText, "calls(") {
+		if st.calls == nil {
+			st.calls = map[string]string{}
+		}
+		// only the callees that the loop body calls
+		inBody := map[string]bool{}
+		for b := range loopBlocks(h) {
+			for _, ins := range b.Instrs {
+				if ci, ok := ins.(ssa.CallInstruction); ok {
+					com := ci.Common()
+					if com.IsInvoke() {
+						inBody[com.Method.Name()] = true
+					} else if sc := com.StaticCallee(); sc != nil {
+						inBody[sc.Name()] = true
+					}
+				}
+			}
+		}
+		for _, m := range callsRe.FindAllStringSubmatch(fc.con.AllText, -1) {
+			if inBody[m[1]] {
+				st.calls[m[1]] = fc.sc.fresh("calls_"+m[1], "Int")
+			}
+		}
+	}
 	if fc.discovery {
 		saved := fc.activeLoops
 		fc.activeLoops = nil
